@@ -278,7 +278,9 @@ func (s MinPriorityCoinSelector) CoinSelect(targetValue bchutil.Amount, coins []
 		if err != nil {
 			// attempt to add available low priority to make a solution
 
-			for numLow := 1; numLow <= cutoffIndex && numLow+(i-cutoffIndex) <= s.MaxInputs; numLow++ {
+			// possibleCoins[cutoffIndex : i+1] holds i-cutoffIndex+1 high
+			// coins, all of which are used together with numLow low ones.
+			for numLow := 1; numLow <= cutoffIndex && numLow+(i-cutoffIndex+1) <= s.MaxInputs; numLow++ {
 				allHigh := NewCoinSet(possibleCoins[cutoffIndex : i+1])
 				newTargetValue := targetValue - allHigh.TotalValue()
 				newMaxInputs := allHigh.Num() + numLow
